@@ -141,6 +141,8 @@ type Analyzer struct {
 	ops         map[int64]*clientOp
 	opOrder     []int64
 	xfers       map[int64]*xferOp
+	cfgReqs     map[int64]*cfgReq // pending ChangeConfig requests by op id
+	cfgReqSeen  bool
 	connID      map[int64]*connInfo
 	servingDirs map[string]nodeKey
 
@@ -199,7 +201,7 @@ func New() *Analyzer {
 		ledger: map[uint64]map[[2]uint64]ledgerEntry{}, committed: map[uint64]map[uint64]*committedInfo{},
 		maxLdrCommit: map[uint64]uint64{},
 		g:            map[uint64][]string{}, gRoll: map[uint64][]uint64{}, gPos: map[uint64]map[string]int64{}, gIndex: map[uint64]map[int64]uint64{},
-		ops: map[int64]*clientOp{}, xfers: map[int64]*xferOp{}, connID: map[int64]*connInfo{},
+		ops: map[int64]*clientOp{}, xfers: map[int64]*xferOp{}, cfgReqs: map[int64]*cfgReq{}, connID: map[int64]*connInfo{},
 		servingDirs: map[string]nodeKey{},
 		wireIDs:     map[uint64]bool{},
 		elXfer:      map[[3]uint64]bool{},
@@ -280,6 +282,44 @@ func voterSet(c *ev.Cfg) map[uint64]bool {
 	return m
 }
 
+type cfgReq struct {
+	node nodeKey
+	inc  int
+	cfg  *ev.Cfg
+}
+
+func changedVoters(a, b map[uint64]bool) []uint64 {
+	var ids []uint64
+	for k := range a {
+		if !b[k] {
+			ids = append(ids, k)
+		}
+	}
+	for k := range b {
+		if !a[k] {
+			ids = append(ids, k)
+		}
+	}
+	sort.Slice(ids, func(i, j int) bool { return ids[i] < ids[j] })
+	return ids
+}
+
+func actionIn(c *ev.Cfg, id uint64, want []uint8) bool {
+	if c == nil {
+		return false
+	}
+	for _, nd := range c.Nodes {
+		if nd.ID == id {
+			for _, w := range want {
+				if nd.Action == w {
+					return true
+				}
+			}
+		}
+	}
+	return false
+}
+
 func symDiff(a, b map[uint64]bool) int {
 	d := 0
 	for k := range a {
@@ -356,6 +396,15 @@ func (a *Analyzer) Feed(r *ev.Rec) {
 		a.onRPC(n, r)
 	case "cfg-changed", "cfg-reverted":
 		a.onState(n, r, false)
+		if r.K == "cfg-changed" && n.latest != nil && n.latest.Nodes != nil && r.Cfg != nil && r.St != nil &&
+			r.Cfg.Index > n.latest.Index && r.Cfg.Index > r.St.Snap && n.latest.Index > 0 {
+			// C08: the configurations one node operates under, one after the
+			// other (a revert or a snapshot installation starts a new sequence)
+			if d := symDiff(voterSet(n.latest), voterSet(r.Cfg)); d > 1 {
+				a.find("C08", "node-adopts-config-more-than-one-voter-away", "", r.Q, "%s moves from configuration %s to %s: %d voters differ", n.key, cfgString(n.latest), cfgString(r.Cfg), d)
+			}
+			a.stat("config-adoptions-compared")
+		}
 		n.latest = r.Cfg
 		a.stat("config-changes")
 	case "cfg-committed":
@@ -390,10 +439,15 @@ func (a *Analyzer) Feed(r *ev.Rec) {
 			op.ret, op.retSeq = r, r.Q
 		}
 	case "admin-call":
+		if (r.Op == "changeconfig" || r.Op == "bootstrap") && n != nil && r.Cfg != nil {
+			a.cfgReqs[r.OpID] = &cfgReq{node: n.key, inc: n.inc, cfg: r.Cfg}
+			a.cfgReqSeen = true
+		}
 		if r.Op == "transfer" && n != nil {
 			a.xfers[r.OpID] = &xferOp{callSeq: r.Q, node: n.key, inc: n.inc, term: n.st.Term}
 		}
 	case "admin-ret":
+		delete(a.cfgReqs, r.OpID)
 		a.onAdminRet(n, r)
 	case "info":
 		a.onInfo(n, r)
@@ -809,6 +863,33 @@ func (a *Analyzer) onAppend(n *nodeState, r *ev.Rec) {
 						a.find("C11", "voter-added-without-catch-up", "", r.Q, "leader %s appends configuration %s in which %d gains its vote (predecessor %s) without a completed catch-up round for it", n.key, cfgString(r.Cfg), id, cfgString(pred))
 					}
 				}
+			}
+		}
+		if pred != nil && pred.Nodes != nil && isLeader && !a.isWire(n.key.nid) && a.cfgReqSeen {
+			// a voting right changes only because somebody asked for it: the
+			// action is recorded in the predecessor or in a request that is
+			// pending on this leader
+			pv := voterSet(pred)
+			for _, id := range changedVoters(pv, nv) {
+				var want []uint8
+				switch {
+				case nv[id]:
+					want = []uint8{1} // promote
+				case r.Cfg.Has(id):
+					want = []uint8{2, 3} // demote, remove (first step)
+				default:
+					want = []uint8{3, 4} // remove, force-remove
+				}
+				ok := actionIn(pred, id, want)
+				for _, q := range a.cfgReqs {
+					if q.node == n.key && q.inc == n.inc && actionIn(q.cfg, id, want) {
+						ok = true
+					}
+				}
+				if !ok {
+					a.find("C08", "voter-change-nobody-asked-for", "", r.Q, "leader %s appends configuration %s in which the voting right of %d changes, but neither its predecessor %s nor a pending request on this leader asks for that", n.key, cfgString(r.Cfg), id, cfgString(pred))
+				}
+				a.stat("voter-changes-traced-to-a-request")
 			}
 		}
 		if pred != nil && pred.Nodes != nil {
